@@ -72,4 +72,318 @@ theorem sumStarts_le (f : Nat → Att) (n : Nat) (h : ∀ a, (f a).starts ≤ 1)
   | zero => simp [sumStarts]
   | succ m ih => have := h m; simp [sumStarts]; omega
 
+/-! ### the per-task invariant (current code, `Cfg.old = false`) -/
+structure TaskOK (t : Task) : Prop where
+  r_pos : 1 ≤ t.R
+  att_le : t.att ≤ t.R
+  atts : ∀ a, AttOK (t.at_ a)
+  beyond : ∀ a, t.att ≤ a → t.at_ a = {}
+  inv_eq : t.inv = sumStarts t.at_ t.att
+  pre0 : t.pc.pre = true → t.att = 0
+  att_pos : t.pc.pre = false → t.pc ≠ .loopTest → 1 ≤ t.att
+  writeW : ∀ a, (t.at_ a).pc.isWrite = true → a + 1 = t.att ∧ t.pc.waiting = true
+  past : ∀ a, a + 1 < t.att → (t.at_ a).decided ≠ 0 ∧ (t.at_ a).ctxDone = true ∧
+            ((t.at_ a).decided = 1 → ∃ v e, (t.at_ a).ret = some (v, e) ∧ e ≠ .nil)
+  sendCl : t.pc = .sendCl → (t.at_ t.cur).pc = .none ∧ (t.at_ t.cur).decided = 0
+  dec0 : 1 ≤ t.att → (t.at_ t.cur).decided = 0 → t.pc.preDecide = true
+  dec2 : 1 ≤ t.att → (t.at_ t.cur).decided = 2 → t.pc.preDecide = false ∧ t.pc ≠ .waitDone
+  wDE : t.pc = .writeDE → (t.at_ t.cur).decided = 2
+  wDone : t.pc = .waitDone → (t.at_ t.cur).decided = 1
+  pub1 : 1 ≤ t.att → (t.at_ t.cur).decided = 1 → (t.at_ t.cur).pc.fin = true →
+            (t.at_ t.cur).ret = some (t.result, t.err)
+  pub2 : 1 ≤ t.att → (t.at_ t.cur).decided = 2 → t.pc ≠ .writeDE → t.result = 0 ∧ t.err = .de
+  ctxd : 1 ≤ t.att → t.pc.post = true → (t.at_ t.cur).ctxDone = true
+  errLoop : t.pc = .loopTest → 1 ≤ t.att → t.err ≠ .nil
+  errOn : t.pc = .onError → t.err ≠ .nil ∧ t.att = t.R
+  errFin : t.pc.fin = true → t.err = .nil ∨ t.att = t.R
+  onErrD : t.pc = .discarded → t.onErr.map Prod.fst = if t.hasCb then [Err.discard] else []
+  onErrF : t.pc.fin = true → t.onErr.map Prod.fst = if t.err ≠ .nil ∧ t.hasCb then [t.err] else []
+  onErr0 : t.pc ≠ .discarded → t.pc.fin = false → t.onErr = []
+  gotD : t.pc = .done → t.got = some (t.result, t.err)
+
+@[simp] theorem setAt_at_ (t : Task) (a : Nat) (x : Att) : (t.setAt a x).at_ = upd t.at_ a x := rfl
+@[simp] theorem setAt_att (t : Task) (a : Nat) (x : Att) : (t.setAt a x).att = t.att := rfl
+@[simp] theorem setAt_pc (t : Task) (a : Nat) (x : Att) : (t.setAt a x).pc = t.pc := rfl
+
+theorem defaultRetry_pos : 1 ≤ defaultRetry := by decide
+
+theorem effR_pos (o : Opts) : 1 ≤ effR o := by
+  unfold effR
+  split
+  · omega
+  · exact defaultRetry_pos
+
+theorem taskOK_default : TaskOK {} := by
+  constructor <;> simp [TPc.pre, TPc.fin, TPc.post, sumStarts, attOK_default, CPc.isWrite]
+
+/-- generic update of one attempt record (plus result/err/inv) with the task's own pc unchanged -/
+theorem ok_setAt {t : Task} (ok : TaskOK t) (a : Nat) (x' : Att) (r' : Val) (e' : Err) (i' : Nat)
+    (hA : AttOK x') (hlt : a < t.att)
+    (hInv : i' + (t.at_ a).starts = t.inv + x'.starts)
+    (hW : x'.pc.isWrite = true → a + 1 = t.att ∧ t.pc.waiting = true)
+    (hPast : a + 1 < t.att → x'.decided ≠ 0 ∧ x'.ctxDone = true ∧
+        (x'.decided = 1 → ∃ v e, x'.ret = some (v, e) ∧ e ≠ .nil))
+    (hCur : a + 1 = t.att →
+        (t.pc = .sendCl → x'.pc = .none ∧ x'.decided = 0) ∧
+        (x'.decided = 0 → t.pc.preDecide = true) ∧
+        (x'.decided = 2 → t.pc.preDecide = false ∧ t.pc ≠ .waitDone) ∧
+        (t.pc = .writeDE → x'.decided = 2) ∧
+        (t.pc = .waitDone → x'.decided = 1) ∧
+        (x'.decided = 1 → x'.pc.fin = true → x'.ret = some (r', e')) ∧
+        (x'.decided = 2 → t.pc ≠ .writeDE → r' = 0 ∧ e' = .de) ∧
+        (t.pc.post = true → x'.ctxDone = true))
+    (hRes : a + 1 ≠ t.att → r' = t.result ∧ e' = t.err)
+    (hErr : t.pc.post = true → r' = t.result ∧ e' = t.err) :
+    TaskOK { t.setAt a x' with result := r', err := e', inv := i' } := by
+  have hatt : 1 ≤ t.att := by omega
+  have hc1 : a + 1 = t.att → t.cur = a := by intro h; simp [Task.cur]; omega
+  have hc2 : a + 1 ≠ t.att → t.cur ≠ a := by intro h; simp [Task.cur]; omega
+  have hpostL : t.pc = .loopTest → t.pc.post = true := by intro h; simp [h, TPc.post]
+  have hpostO : t.pc = .onError → t.pc.post = true := by intro h; simp [h, TPc.post]
+  have hpostF : t.pc.fin = true → t.pc.post = true := by
+    intro h; cases hp : t.pc <;> simp_all [TPc.post, TPc.fin]
+  -- the current attempt record after the update
+  have hcurEq : ∀ (P : Att → Prop), (a + 1 = t.att → P x') → (a + 1 ≠ t.att → P (t.at_ t.cur)) →
+      P (upd t.at_ a x' t.cur) := by
+    intro P h1 h2
+    by_cases h : a + 1 = t.att
+    · rw [hc1 h]; simp; exact h1 h
+    · rw [upd_other _ _ _ _ (hc2 h)]; exact h2 h
+  refine
+    { r_pos := ok.r_pos, att_le := ok.att_le, atts := ?_, beyond := ?_, inv_eq := ?_, pre0 := ok.pre0,
+      att_pos := ok.att_pos, writeW := ?_, past := ?_, sendCl := ?_, dec0 := ?_, dec2 := ?_, wDE := ?_,
+      wDone := ?_, pub1 := ?_, pub2 := ?_, ctxd := ?_, errLoop := ?_, errOn := ?_, errFin := ?_,
+      onErrD := ok.onErrD, onErrF := ?_, onErr0 := ok.onErr0, gotD := ?_ }
+  · intro b
+    show AttOK (upd t.at_ a x' b)
+    by_cases hb : b = a
+    · subst hb; simpa using hA
+    · simpa [hb] using ok.atts b
+  · intro b hb
+    show upd t.at_ a x' b = {}
+    have hb' : t.att ≤ b := hb
+    have : b ≠ a := by omega
+    simpa [this] using ok.beyond b hb'
+  · show i' = sumStarts (upd t.at_ a x') t.att
+    have h1 := sumStarts_upd_lt t.at_ a x' t.att hlt
+    have h2 := ok.inv_eq
+    omega
+  · intro b
+    show (upd t.at_ a x' b).pc.isWrite = true → b + 1 = t.att ∧ t.pc.waiting = true
+    by_cases hb : b = a
+    · subst hb; simpa using hW
+    · simpa [hb] using ok.writeW b
+  · intro b hb
+    have hb' : b + 1 < t.att := hb
+    simp only [setAt_at_]
+    by_cases hba : b = a
+    · subst hba; simpa using hPast hb'
+    · simpa [hba] using ok.past b hb'
+  · intro hp
+    exact hcurEq (fun y => y.pc = .none ∧ y.decided = 0) (fun h => (hCur h).1 hp) (fun _ => ok.sendCl hp)
+  · intro _
+    exact hcurEq (fun y => y.decided = 0 → t.pc.preDecide = true) (fun h => (hCur h).2.1) (fun _ => ok.dec0 hatt)
+  · intro _
+    exact hcurEq (fun y => y.decided = 2 → t.pc.preDecide = false ∧ t.pc ≠ .waitDone) (fun h => (hCur h).2.2.1)
+      (fun _ => ok.dec2 hatt)
+  · intro hp
+    exact hcurEq (fun y => y.decided = 2) (fun h => (hCur h).2.2.2.1 hp) (fun _ => ok.wDE hp)
+  · intro hp
+    exact hcurEq (fun y => y.decided = 1) (fun h => (hCur h).2.2.2.2.1 hp) (fun _ => ok.wDone hp)
+  · intro _
+    exact hcurEq (fun y => y.decided = 1 → y.pc.fin = true → y.ret = some (r', e')) (fun h => (hCur h).2.2.2.2.2.1)
+      (fun h => by rw [(hRes h).1, (hRes h).2]; exact ok.pub1 hatt)
+  · intro _
+    exact hcurEq (fun y => y.decided = 2 → t.pc ≠ .writeDE → r' = 0 ∧ e' = .de) (fun h => (hCur h).2.2.2.2.2.2.1)
+      (fun h => by rw [(hRes h).1, (hRes h).2]; exact ok.pub2 hatt)
+  · intro _ hp
+    exact hcurEq (fun y => y.ctxDone = true) (fun h => (hCur h).2.2.2.2.2.2.2 hp) (fun _ => ok.ctxd hatt hp)
+  · intro hp h1
+    show e' ≠ .nil
+    rw [(hErr (hpostL hp)).2]; exact ok.errLoop hp h1
+  · intro hp
+    show e' ≠ .nil ∧ t.att = t.R
+    rw [(hErr (hpostO hp)).2]; exact ok.errOn hp
+  · intro hp
+    show e' = .nil ∨ t.att = t.R
+    rw [(hErr (hpostF hp)).2]; exact ok.errFin hp
+  · intro hp
+    show t.onErr.map Prod.fst = if e' ≠ .nil ∧ t.hasCb then [e'] else []
+    rw [(hErr (hpostF hp)).2]; exact ok.onErrF hp
+  · intro hp
+    show t.got = some (r', e')
+    have hf : t.pc.post = true := by simp [show t.pc = .done from hp, TPc.post]
+    rw [(hErr hf).1, (hErr hf).2]; exact ok.gotD hp
+
+/-! ### preservation, closure (inner worker) transitions -/
+set_option linter.unusedVariables false
+set_option linter.unusedSimpArgs false
+
+theorem lt_of_pc {t : Task} (ok : TaskOK t) {a : Nat} (h : (t.at_ a).pc ≠ .none) : a < t.att := by
+  apply Classical.byContradiction
+  intro hn
+  have := ok.beyond a (by omega)
+  rw [this] at h
+  exact h rfl
+
+theorem ok_cur {t : Task} (ok : TaskOK t) {a : Nat} (h : a + 1 = t.att) :
+    (t.pc = .sendCl → (t.at_ a).pc = .none ∧ (t.at_ a).decided = 0) ∧
+    ((t.at_ a).decided = 0 → t.pc.preDecide = true) ∧
+    ((t.at_ a).decided = 2 → t.pc.preDecide = false ∧ t.pc ≠ .waitDone) ∧
+    (t.pc = .writeDE → (t.at_ a).decided = 2) ∧
+    (t.pc = .waitDone → (t.at_ a).decided = 1) ∧
+    ((t.at_ a).decided = 1 → (t.at_ a).pc.fin = true → (t.at_ a).ret = some (t.result, t.err)) ∧
+    ((t.at_ a).decided = 2 → t.pc ≠ .writeDE → t.result = 0 ∧ t.err = .de) ∧
+    (t.pc.post = true → (t.at_ a).ctxDone = true) := by
+  have hc : t.cur = a := by simp [Task.cur]; omega
+  have h1 : 1 ≤ t.att := by omega
+  rw [← hc]
+  exact ⟨ok.sendCl, ok.dec0 h1, ok.dec2 h1, ok.wDE, ok.wDone, ok.pub1 h1, ok.pub2 h1, ok.ctxd h1⟩
+
+
+theorem ok_wTake {c : Cfg} {now qlen k a : Nat} {w v : Nat} {hon : Bool} {e : Err} {t t' : Task} (hc : c.old = false) (ok : TaskOK t)
+    (h : tstep c now qlen t (.wTake k a w) = some t') : TaskOK t' := by
+  simp only [tstep, hc, Bool.false_eq_true, ↓reduceIte] at h
+  (repeat' split at h) <;> cases h
+  all_goals
+    have ax := ok.atts a
+    have hlt : a < t.att := lt_of_pc ok (a := a) (by simp_all)
+    have hw := ok.writeW a
+    have hpa := ok.past a
+    have hcu := fun h => ok_cur ok (a := a) h
+    refine ok_setAt ok a _ t.result t.err t.inv ?_ hlt ?_ ?_ ?_ ?_ ?_ ?_
+    all_goals simp_all [AttOK, CPc.isWrite, CPc.fin, CPc.afterCas, CPc.pair?, CPc.live, CPc.started]
+    all_goals (try omega)
+    all_goals (try (intro _; omega))
+    all_goals
+      have h1 : a + 1 = t.att := by omega
+      cases hp : t.pc <;> simp_all [TPc.preDecide, TPc.waiting, TPc.post, TPc.fin]
+
+theorem ok_wStart {c : Cfg} {now qlen k a : Nat} {w v : Nat} {hon : Bool} {e : Err} {t t' : Task} (hc : c.old = false) (ok : TaskOK t)
+    (h : tstep c now qlen t (.wStart k a hon) = some t') : TaskOK t' := by
+  simp only [tstep, hc, Bool.false_eq_true, ↓reduceIte] at h
+  (repeat' split at h) <;> cases h
+  all_goals
+    have ax := ok.atts a
+    have hlt : a < t.att := lt_of_pc ok (a := a) (by simp_all)
+    have hw := ok.writeW a
+    have hpa := ok.past a
+    have hcu := fun h => ok_cur ok (a := a) h
+    refine ok_setAt ok a _ t.result t.err (t.inv + 1) ?_ hlt ?_ ?_ ?_ ?_ ?_ ?_
+    all_goals simp_all [AttOK, CPc.isWrite, CPc.fin, CPc.afterCas, CPc.pair?, CPc.live, CPc.started]
+    all_goals (try omega)
+    all_goals (try (intro _; omega))
+    all_goals
+      have h1 : a + 1 = t.att := by omega
+      cases hp : t.pc <;> simp_all [TPc.preDecide, TPc.waiting, TPc.post, TPc.fin]
+
+theorem ok_wEnd {c : Cfg} {now qlen k a : Nat} {w v : Nat} {hon : Bool} {e : Err} {t t' : Task} (hc : c.old = false) (ok : TaskOK t)
+    (h : tstep c now qlen t (.wEnd k a v e) = some t') : TaskOK t' := by
+  simp only [tstep, hc, Bool.false_eq_true, ↓reduceIte] at h
+  (repeat' split at h) <;> cases h
+  all_goals
+    have ax := ok.atts a
+    have hlt : a < t.att := lt_of_pc ok (a := a) (by simp_all)
+    have hw := ok.writeW a
+    have hpa := ok.past a
+    have hcu := fun h => ok_cur ok (a := a) h
+    refine ok_setAt ok a _ t.result t.err t.inv ?_ hlt ?_ ?_ ?_ ?_ ?_ ?_
+    all_goals simp_all [AttOK, CPc.isWrite, CPc.fin, CPc.afterCas, CPc.pair?, CPc.live, CPc.started]
+    all_goals (try omega)
+    all_goals (try (intro _; omega))
+    all_goals
+      have h1 : a + 1 = t.att := by omega
+      cases hp : t.pc <;> simp_all [TPc.preDecide, TPc.waiting, TPc.post, TPc.fin]
+
+theorem ok_wCheck {c : Cfg} {now qlen k a : Nat} {w v : Nat} {hon : Bool} {e : Err} {t t' : Task} (hc : c.old = false) (ok : TaskOK t)
+    (h : tstep c now qlen t (.wCheck k a) = some t') : TaskOK t' := by
+  simp only [tstep, hc, Bool.false_eq_true, ↓reduceIte] at h
+  (repeat' split at h) <;> cases h
+  all_goals
+    have ax := ok.atts a
+    have hlt : a < t.att := lt_of_pc ok (a := a) (by simp_all)
+    have hw := ok.writeW a
+    have hpa := ok.past a
+    have hcu := fun h => ok_cur ok (a := a) h
+    refine ok_setAt ok a _ t.result t.err t.inv ?_ hlt ?_ ?_ ?_ ?_ ?_ ?_
+    all_goals simp_all [AttOK, CPc.isWrite, CPc.fin, CPc.afterCas, CPc.pair?, CPc.live, CPc.started]
+    all_goals (try omega)
+    all_goals (try (intro _; omega))
+    all_goals
+      have h1 : a + 1 = t.att := by omega
+      cases hp : t.pc <;> simp_all [TPc.preDecide, TPc.waiting, TPc.post, TPc.fin]
+
+theorem ok_hook1 {c : Cfg} {now qlen k a : Nat} {w v : Nat} {hon : Bool} {e : Err} {t t' : Task} (hc : c.old = false) (ok : TaskOK t)
+    (h : tstep c now qlen t (.hook1 k a) = some t') : TaskOK t' := by
+  simp only [tstep, hc, Bool.false_eq_true, ↓reduceIte] at h
+  (repeat' split at h) <;> cases h
+  all_goals
+    have ax := ok.atts a
+    have hlt : a < t.att := lt_of_pc ok (a := a) (by simp_all)
+    have hw := ok.writeW a
+    have hpa := ok.past a
+    have hcu := fun h => ok_cur ok (a := a) h
+    refine ok_setAt ok a _ t.result t.err t.inv ?_ hlt ?_ ?_ ?_ ?_ ?_ ?_
+    all_goals simp_all [AttOK, CPc.isWrite, CPc.fin, CPc.afterCas, CPc.pair?, CPc.live, CPc.started]
+    all_goals (try omega)
+    all_goals (try (intro _; omega))
+    all_goals
+      have h1 : a + 1 = t.att := by omega
+      cases hp : t.pc <;> simp_all [TPc.preDecide, TPc.waiting, TPc.post, TPc.fin]
+
+theorem ok_wCas {c : Cfg} {now qlen k a : Nat} {w v : Nat} {hon : Bool} {e : Err} {t t' : Task} (hc : c.old = false) (ok : TaskOK t)
+    (h : tstep c now qlen t (.wCas k a) = some t') : TaskOK t' := by
+  simp only [tstep, hc, Bool.false_eq_true, ↓reduceIte] at h
+  (repeat' split at h) <;> cases h
+  all_goals
+    have ax := ok.atts a
+    have hlt : a < t.att := lt_of_pc ok (a := a) (by simp_all)
+    have hw := ok.writeW a
+    have hpa := ok.past a
+    have hcu := fun h => ok_cur ok (a := a) h
+    refine ok_setAt ok a _ t.result t.err t.inv ?_ hlt ?_ ?_ ?_ ?_ ?_ ?_
+    all_goals simp_all [AttOK, CPc.isWrite, CPc.fin, CPc.afterCas, CPc.pair?, CPc.live, CPc.started]
+    all_goals (try omega)
+    all_goals (try (intro _; omega))
+    all_goals
+      have h1 : a + 1 = t.att := by omega
+      cases hp : t.pc <;> simp_all [TPc.preDecide, TPc.waiting, TPc.post, TPc.fin]
+
+theorem ok_wWrite {c : Cfg} {now qlen k a : Nat} {w v : Nat} {hon : Bool} {e : Err} {t t' : Task} (hc : c.old = false) (ok : TaskOK t)
+    (h : tstep c now qlen t (.wWrite k a) = some t') : TaskOK t' := by
+  simp only [tstep, hc, Bool.false_eq_true, ↓reduceIte] at h
+  (repeat' split at h) <;> cases h
+  all_goals
+    have ax := ok.atts a
+    have hlt : a < t.att := lt_of_pc ok (a := a) (by simp_all)
+    have hw := ok.writeW a
+    have hpa := ok.past a
+    have hcu := fun h => ok_cur ok (a := a) h
+    refine ok_setAt ok a _ _ _ t.inv ?_ hlt ?_ ?_ ?_ ?_ ?_ ?_
+    all_goals simp_all [AttOK, CPc.isWrite, CPc.fin, CPc.afterCas, CPc.pair?, CPc.live, CPc.started]
+    all_goals (try omega)
+    all_goals (try (intro _; omega))
+    all_goals
+      have h1 : a + 1 = t.att := by omega
+      cases hp : t.pc <;> simp_all [TPc.preDecide, TPc.waiting, TPc.post, TPc.fin]
+
+theorem ok_wClose {c : Cfg} {now qlen k a : Nat} {w v : Nat} {hon : Bool} {e : Err} {t t' : Task} (hc : c.old = false) (ok : TaskOK t)
+    (h : tstep c now qlen t (.wClose k a) = some t') : TaskOK t' := by
+  simp only [tstep, hc, Bool.false_eq_true, ↓reduceIte] at h
+  (repeat' split at h) <;> cases h
+  all_goals
+    have ax := ok.atts a
+    have hlt : a < t.att := lt_of_pc ok (a := a) (by simp_all)
+    have hw := ok.writeW a
+    have hpa := ok.past a
+    have hcu := fun h => ok_cur ok (a := a) h
+    refine ok_setAt ok a _ t.result t.err t.inv ?_ hlt ?_ ?_ ?_ ?_ ?_ ?_
+    all_goals simp_all [AttOK, CPc.isWrite, CPc.fin, CPc.afterCas, CPc.pair?, CPc.live, CPc.started]
+    all_goals (try omega)
+    all_goals (try (intro _; omega))
+    all_goals
+      have h1 : a + 1 = t.att := by omega
+      cases hp : t.pc <;> simp_all [TPc.preDecide, TPc.waiting, TPc.post, TPc.fin]
+
+
 end Got.Model.Ants
